@@ -30,7 +30,10 @@ class Prov:
 def gen_provisions(rng, W, ind, depth, out, provs, used_nums):
     kw = rng.choice(gen.HIER)
     while True:
-        num = rng.choice(['1', '2', '3', '(a)', '(b)', '(i)', 'A', '1A', '2bis', '10.', '3.1', 'IV', '(A)', 'a', '1a', '(I)', 'iv', 'B', 'b', 'é', 'É'])
+        num = rng.choice(['1', '2', '3', '(a)', '(b)', '(i)', 'A', '1A', '2bis', '10.', '3.1', 'IV', '(A)', 'a', '1a', '(I)', 'iv', 'B', 'b', 'é', 'É',
+                          # symbols that are neither word characters nor punctuation clean_num removes: they stay in the eId, so a prefix
+                          # that is 'tidied' on its way in no longer matches the enclosing element (round 15)
+                          '§5', '№3', '5°', '¶2', '€1', '1§2', '©'])
         key = (SYN.get(kw.lower(), kw.lower()), eidlib.clean_num_ref(num))
         if key not in used_nums: break
     used_nums.add(key)
